@@ -393,7 +393,7 @@ def check(ctx):
     ctx.trusted = ["rustc MIR construction and type checking of the result lengths (Add1/Sub1/Diff/Sum)", "ptr::read/write/copy, slice::swap, transmute_copy semantics",
                    "C01: element i of GenericArray<T, N> lives at byte i*size_of T"]
     ctx.assumptions = ["typenum implements Sub only for non-negative results (Diff<N,K> exists => K <= N)"]
-    cfgs = ["F0", "F1"] if ctx.tier == "quick" else ["F0", "F1", "F2"]
+    cfgs = ["F0", "F1", "F1N"] if ctx.tier == "quick" else ["F0", "F1", "F1N", "F2", "F0N", "F2N"]
     ctx.need(*cfgs)
     for cfg in cfgs:
         n = 0
